@@ -149,7 +149,7 @@ pub static CURRENT_SUBSTEP: std::sync::atomic::AtomicU64 = std::sync::atomic::At
 /// some call into the crate does not return. The watchdog writes a witness (`hang-<engine>-<shard>.json`)
 /// and ends the worker with exit code 17; the driver reports it and restarts the shard behind that case.
 /// CPU time, not wall-clock time: an overloaded machine cannot trip it.
-pub fn start_progress_watchdog(prop: &'static str, seed: u64, engine: Engine, shard: u64, out_dir: Option<String>, bound_s: f64) {
+pub fn start_progress_watchdog(prop: &'static str, seed: u64, engine: Engine, shard: u64, out_dir: Option<String>, bound_s: f64, eof_bound: Option<u64>) {
     let task = match std::fs::read_link("/proc/thread-self") {
         Ok(p) => p.to_string_lossy().into_owned(),
         Err(_) => return,
@@ -158,6 +158,7 @@ pub fn start_progress_watchdog(prop: &'static str, seed: u64, engine: Engine, sh
         use std::sync::atomic::Ordering::SeqCst;
         let cpu = |t: &str| -> Option<u64> { std::fs::read_to_string(format!("/proc/{}/schedstat", t)).ok()?.split_whitespace().next()?.parse().ok() };
         let mut seen: Option<(u64, u64)> = None; // (case, cpu at first sight)
+        let mut eof_seen: u64 = 0; // FIBEX end-of-file events delivered when the case was first seen
         loop {
             std::thread::sleep(std::time::Duration::from_millis(200));
             let case = CURRENT_CASE.load(SeqCst);
@@ -169,11 +170,36 @@ pub fn start_progress_watchdog(prop: &'static str, seed: u64, engine: Engine, sh
                 Some(x) => x,
                 None => return,
             };
+            let eof_now = dlt_core::verif_hooks::FIBEX_EOF_RETURNS.load(std::sync::atomic::Ordering::Relaxed);
             match seen {
                 Some((c, _)) if c == case => {}
-                _ => seen = Some((case, now)),
+                _ => {
+                    seen = Some((case, now));
+                    eof_seen = eof_now;
+                }
             }
             let used = (now - seen.unwrap().1) as f64 / 1e9;
+            // a logical measure next to the CPU time: a loader that sleeps between retries burns no CPU,
+            // but it is handed end-of-file again and again (hook counter in the crate, feature verif-hooks)
+            let eof_exceeded = eof_bound.map_or(false, |b| eof_now - eof_seen > b);
+            if eof_exceeded {
+                let j = J::obj()
+                    .set("prop", prop)
+                    .set("seed", seed)
+                    .set("index", case)
+                    .set("sub", CURRENT_SUBSTEP.load(SeqCst))
+                    .set("reason", "eof_returned_again_and_again")
+                    .set("eof_returns_during_case", eof_now - eof_seen)
+                    .set("bound", eof_bound.unwrap_or(0))
+                    .set("what", "the FIBEX loader was handed end-of-file far more often during one case than its files can account for: it reads them again and again");
+                match &out_dir {
+                    Some(d) => {
+                        let _ = std::fs::write(format!("{}/hang-{}-{}.json", d, engine.name(), shard), j.to_string());
+                    }
+                    None => println!("  violated clause=bounded_progress discr=eof_returned_again_and_again detail={}", j.to_string()),
+                }
+                std::process::exit(17);
+            }
             if used > bound_s {
                 let sub = CURRENT_SUBSTEP.load(SeqCst);
                 let j = J::obj()
